@@ -60,6 +60,8 @@ func checkC18(c *Ctx) {
 			}
 			return false
 		})
+	c.Rule("R18.9", "groups are zap namespaces: the encoder's open-namespace counter accounts for exactly the braces still open, so a group-valued attribute written under open groups closes its own braces and none of theirs", 3)
+	c1Namespaces(c, "R18.9")
 	c.Rule("R18.4", "Handle and WithAttrs agree on the emission of pending groups", 2)
 	c.Rule("R18.5", "WithAttrs/WithGroup are pure derivations", 3)
 	c.Rule("R18.6", "a record is handled iff Core.Check accepts the mapped level", 2)
